@@ -209,7 +209,7 @@ fn shard(ctx: &ShardCtx, known: &Known) -> ShardOut {
     // pattern: bit 0 = third writer, /2%3 = bulk size
     // holds >= 8 marks a pre-sized (no growth) scenario
     let presized = ctx.shard % 2 == 1;
-    let sc = Scenario { readers: 1 + (ctx.shard / 4) % 2, commits: 1 + (ctx.shard / 8) % 2, pattern: ((ctx.shard / 2) % 6) as u8, holds: if presized { 9 } else { 1 } };
+    let sc = Scenario { readers: 1 + (ctx.shard / 4) % 2, commits: 1 + (ctx.shard / 8) % 2, pattern: ((ctx.shard / 2) % 6) as u8, holds: if presized { 9 } else { 1 }, grow: false };
     let template = ctx.db_path("c09.template.db");
     if let Err(f) = prepare_template(&template, presized) {
         out.inconclusive.push(f.line());
